@@ -3139,14 +3139,17 @@ DString  * mmd_engine_convert_opml_to_text(mmd_engine * e) {
 	// Swap original and engine
 	char * temp = e->dstr->str;
 	size_t size = e->dstr->currentStringLength;
+	size_t capacity = e->dstr->currentStringBufferSize;
 
 	// Replace engine copy with original OPML text
 	e->dstr->str = original->str;
 	e->dstr->currentStringLength = original->currentStringLength;
+	e->dstr->currentStringBufferSize = original->currentStringBufferSize;
 
 	// Original now contains the processed text
 	original->str = temp;
 	original->currentStringLength = size;
+	original->currentStringBufferSize = capacity;
 
 	return original;
 }
@@ -3188,14 +3191,17 @@ DString  * mmd_engine_convert_itmz_to_text(mmd_engine * e) {
 	// Swap original and engine
 	char * temp = e->dstr->str;
 	size_t size = e->dstr->currentStringLength;
+	size_t capacity = e->dstr->currentStringBufferSize;
 
 	// Replace engine copy with original ITMZ text
 	e->dstr->str = original->str;
 	e->dstr->currentStringLength = original->currentStringLength;
+	e->dstr->currentStringBufferSize = original->currentStringBufferSize;
 
 	// Original now contains the processed text
 	original->str = temp;
 	original->currentStringLength = size;
+	original->currentStringBufferSize = capacity;
 
 	return original;
 }
